@@ -363,6 +363,29 @@ def runCases : List (List Pat × (Nat → Res)) → Nat → CasesRes
 
 def Pat.zeros (w : Nat) : Pat := List.replicate w .zero
 
+/-- the general form of a `SwitchValue`: a `Match` cell over all pattern lists and an `AssignmentList` with default 0
+and one assignment per case of the value extended to the unified shape -/
+def emitSwitchGeneral (rt : Res) (cases : List (List Pat × (Nat → Res))) : Res :=
+  let rc := runCases cases rt.next
+  -- `Shape._unify` of all `(len(value), signed)`: the n-ary join, written with the binary one as `SwitchValue.shape` is
+  let sh := rc.cases.foldr (fun c (acc : Shape) => Shape.unify ⟨c.2.1.length, c.2.2⟩ acc) (Shape.u 0)
+  let elems := rc.cases.map (fun c => (c.1, extendV c.2.1 c.2.2 sh.width))
+  Res.after (rt.wires ++ rc.wires) (rt.nodes ++ rc.nodes) (emitAssignList rt.val elems sh.width rc.next) sh.signed
+
+/-- the `Mux` form: an `m` operator (`test ? cases[1] : cases[0]`, with `test` reduced by a `b` operator unless it is
+one bit wide); the default's value (`f1`) is emitted first -/
+def emitSwitchMux (rt : Res) (f0 f1 : Nat → Res) : Res :=
+  let ra := f1 rt.next         -- operand_a: the default's value (chosen when the test is non-zero)
+  let rb := f0 ra.next         -- operand_b
+  let ws := rt.wires ++ ra.wires ++ rb.wires
+  let ns := rt.nodes ++ ra.nodes ++ rb.nodes
+  let u := unifyVals ra.val ra.signed rb.val rb.signed
+  if rt.val.length = 1 then
+    Res.after ws ns (emitMux rt.val u.1 u.2.1 rb.next) u.2.2.signed
+  else
+    let tb := emitUnary .bool rt.val rb.next
+    Res.after (ws ++ tb.wires) (ns ++ tb.nodes) (emitMux tb.val u.1 u.2.1 tb.next) u.2.2.signed
+
 /-- `SwitchValue`: `rt` emits the test, `cases` the values (as functions of the name counter, so that they can be
 run in the order the code uses).
 
@@ -375,29 +398,11 @@ run in the order the code uses).
 (`Expr` writes a default case as the single all-don't-care pattern, so a *written* all-don't-care second case is read
 as a default here; the code tells the two apart.) -/
 def emitSwitch (rt : Res) (cases : List (List Pat × (Nat → Res))) : Res :=
-  let test := rt.val
-  let tw := test.length
-  let general : Res :=
-    let rc := runCases cases rt.next
-    -- `Shape._unify` of all `(len(value), signed)`: the n-ary join, written with the binary one as `SwitchValue.shape` is
-    let sh := rc.cases.foldr (fun c (acc : Shape) => Shape.unify ⟨c.2.1.length, c.2.2⟩ acc) (Shape.u 0)
-    let elems := rc.cases.map (fun c => (c.1, extendV c.2.1 c.2.2 sh.width))
-    Res.after (rt.wires ++ rc.wires) (rt.nodes ++ rc.nodes) (emitAssignList test elems sh.width rc.next) sh.signed
   match cases with
   | [(p0, f0), (p1, f1)] =>
-    if p0 = [Pat.zeros tw] ∧ p1 = [Pat.dontCare tw] then
-      let ra := f1 rt.next         -- operand_a: the default's value (chosen when the test is non-zero)
-      let rb := f0 ra.next         -- operand_b
-      let ws := rt.wires ++ ra.wires ++ rb.wires
-      let ns := rt.nodes ++ ra.nodes ++ rb.nodes
-      let u := unifyVals ra.val ra.signed rb.val rb.signed
-      if tw = 1 then
-        Res.after ws ns (emitMux test u.1 u.2.1 rb.next) u.2.2.signed
-      else
-        let tb := emitUnary .bool test rb.next
-        Res.after (ws ++ tb.wires) (ns ++ tb.nodes) (emitMux tb.val u.1 u.2.1 tb.next) u.2.2.signed
-    else general
-  | _ => general
+    if p0 = [Pat.zeros rt.val.length] ∧ p1 = [Pat.dontCare rt.val.length] then emitSwitchMux rt f0 f1
+    else emitSwitchGeneral rt cases
+  | _ => emitSwitchGeneral rt cases
 
 /-- `(emitX ctx e).1 n`: `emit_rhs` of `e` with the name counter at `n`; `(emitX ctx e).2`: when `e` is (the rest
 of) a chain of cases, the cases' pattern lists and value emitters -/
@@ -441,9 +446,9 @@ def chainOf : Expr → List (List Pat × Expr)
   | _ => []
 
 /-- `e` continues a chain of cases over `test` -/
-def _root_.Amaranth.Expr.sameTest (test : Expr) : Expr → Bool
-  | .ite t _ _ els => decide (t = test) && sameTest test els
-  | _ => true
+def _root_.Amaranth.Expr.sameTest : Expr → Expr → Bool
+  | .ite t _ _ els, test => decide (t = test) && els.sameTest test
+  | _, _ => true
 
 /-- every chain of cases repeats one test expression (what a `SwitchValue` is; `Driver/ExprIO.parseExpr` only builds
 such chains) -/
